@@ -730,7 +730,8 @@ class PolytopeCheck(Check):
             if rng.random() < 0.18:
                 # other public methods of the object, called between the operations the property talks about
                 ops.append({"op": "aux", "inst": i,
-                            "what": rng.choice(["cells", "cells", "adjacency", "cdist", "neighbours"])})
+                            "what": rng.choice(["cells", "cells", "adjacency", "cdist", "neighbours",
+                                                "n_element_graph"])})
                 continue
             r = rng.random()
             if r < 0.35 and levels[i] < max_level:
@@ -896,6 +897,9 @@ class PolytopeCheck(Check):
                                 poly.get_cdist_matrix()
                             elif op["what"] == "neighbours":
                                 poly.get_neighbours_of(0)
+                            elif op["what"] == "n_element_graph" and levels[i] <= 2:
+                                n_now = EXPECTED_COUNT[kind](levels[i])
+                                poly.get_N_element_graph(poly.get_nodes(N=max(1, n_now // 2), projection=True))
                     except Exception:  # noqa: BLE001
                         probes["aux_call_raised"] = probes.get("aux_call_raised", 0) + 1
                     faults["aux_public_call_" + op["what"]] = faults.get("aux_public_call_" + op["what"], 0) + 1
